@@ -277,7 +277,10 @@ func ruleGeneric(e *Env, entries []*ssa.Function) {
 	// include the error types' methods (Error() formats the input)
 	for _, f := range e.PkgFuncs(ValuePkgs...) {
 		if f.Name() == "Error" || f.Name() == "Unwrap" {
-			reach[f] = true
+			// … and what they call (a helper that quotes the input for the message)
+			for g := range e.C.Reachable(f) {
+				reach[g] = true
+			}
 		}
 	}
 	nGeneric := 0
@@ -554,6 +557,7 @@ func ruleC17Arms(e *Env) {
 		seen[f] = true
 		// the consumers of each asserted text: callee names, "ext:" for functions outside the module
 		arms := map[string]map[string]bool{}
+		asserted := map[string]bool{}
 		for _, b := range f.Blocks {
 			for _, in := range b.Instrs {
 				ta, ok := in.(*ssa.TypeAssert)
@@ -564,6 +568,7 @@ func ruleC17Arms(e *Env) {
 					continue
 				}
 				kind := isText(ta.AssertedType)
+				asserted[kind] = true
 				if arms[kind] == nil {
 					arms[kind] = map[string]bool{}
 				}
@@ -592,6 +597,8 @@ func ruleC17Arms(e *Env) {
 							walk(x, depth+1)
 						case *ssa.MakeInterface:
 							walk(x, depth+1)
+						case *ssa.Phi:
+							walk(x, depth+1) // the arms meet: what consumes the merged value consumes either
 						case *ssa.Slice:
 							arms[kind]["(cut)"] = true // a part of the text is taken: the other arm must do the same
 							walk(x, depth+1)
@@ -606,7 +613,13 @@ func ruleC17Arms(e *Env) {
 								if flow.InRepo(g) {
 									arms[kind][flow.FnName(flow.Origin(g))] = true
 								} else if !strings.HasPrefix(g.String(), "fmt.") { // the error message of the fall-through arm
-									arms[kind]["ext:"+g.String()] = true
+									// strings.X and bytes.X of the same name do the same to a text: one name for both
+									name := g.String()
+									name = strings.TrimPrefix(strings.TrimPrefix(name, "strings."), "bytes.")
+									arms[kind]["ext:"+name] = true
+									if v, isVal := x.(ssa.Value); isVal {
+										walk(v, depth+1) // what the rewritten text is handed to
+									}
 								}
 							} else {
 								arms[kind]["dyn:"+cc.Value.String()] = true
@@ -617,7 +630,7 @@ func ruleC17Arms(e *Env) {
 				walk(val, 0)
 			}
 		}
-		if len(arms["string"]) == 0 || len(arms["[]byte"]) == 0 {
+		if !asserted["string"] || !asserted["[]byte"] {
 			continue
 		}
 		site := flow.FnName(f)
